@@ -11,6 +11,12 @@ int64_t w_parallel_range_multi(uint64_t start, uint64_t end, uint64_t block, uin
 #define MULTI 0
 #endif
 #define START 5
+#if BLK == 0
+static uint64_t blk_v; /* symbolic block size in [1,4] */
+#define BLKV blk_v
+#else
+#define BLKV ((uint64_t)BLK)
+#endif
 static uint32_t visits[RANGE + 1], oob, bad_thread, thread_seen[T + 1];
 static uint64_t hit; /* index of the single true value, or RANGE for none */
 static uint8_t truth[RANGE + 1]; /* MULTI: any subset of values may return true (the _multi variant never stops early) */
@@ -84,10 +90,19 @@ uint8_t STUB(verif_cb)(uint64_t v, uint64_t t) {
 #if MULTI
 void harness(void) {
   for (int i = 0; i < RANGE; i++) truth[i] = in_bool();
+#if BLK == 0
+  blk_v = in_range(1, 4);
+#endif
   uint64_t out[RANGE + 1];
-  int64_t rc = w_parallel_range_multi(START, START + RANGE, BLK, T, out, RANGE + 1);
+  int64_t rc = w_parallel_range_multi(START, START + RANGE, BLKV, T, out, RANGE + 1);
   OBS(rc);
-  ASSERT(started == T && joined == T, "exactly num_threads workers are started and every one is joined before the call returns");
+  if (RANGE % BLKV) { /* documented precondition violated: the call must refuse (logic_error) without visiting anything */
+    ASSERT(rc == -4, "block size not dividing the range is rejected with logic_error");
+    for (int i = 0; i < RANGE; i++) ASSERT(visits[i] == 0, "rejected call visits nothing");
+    ASSERT(!oob, "callback never invoked outside [start,end)");
+    return;
+  }
+  ASSERT(joined == started && started <= T, "every started worker is joined before the call returns (and no more than num_threads are started)");
   ASSERT(!oob, "callback never invoked outside [start,end)");
   ASSERT(!bad_thread && !bad_tn, "thread numbers lie in [0,num_threads)");
   for (int i = 0; i < RANGE; i++) ASSERT(visits[i] == 1, "_multi never stops early: every value visited exactly once");
@@ -102,11 +117,20 @@ void harness(void) {
 #else
 void harness(void) {
   hit = in_range(0, RANGE);
+#if BLK == 0
+  blk_v = in_range(1, 4);
+#endif
   uint64_t out = 0;
-  int64_t rc = BLOCKS ? w_parallel_range_blocks(START, START + RANGE, BLK, T, &out) : w_parallel_range(START, START + RANGE, T, &out);
+  int64_t rc = BLOCKS ? w_parallel_range_blocks(START, START + RANGE, BLKV, T, &out) : w_parallel_range(START, START + RANGE, T, &out);
   OBS(rc); OBS(out);
+  if (BLOCKS && (RANGE % BLKV)) { /* documented precondition violated: the call must refuse (logic_error) without visiting anything */
+    ASSERT(rc == -4, "block size not dividing the range is rejected with logic_error");
+    for (int i = 0; i < RANGE; i++) ASSERT(visits[i] == 0, "rejected call visits nothing");
+    ASSERT(!oob, "callback never invoked outside [start,end)");
+    return;
+  }
   ASSERT(rc == 0, "parallel_range does not throw for a valid range / block size / thread count");
-  ASSERT(started == T && joined == T, "exactly num_threads workers are started and every one is joined before the call returns");
+  ASSERT(joined == started && started <= T, "every started worker is joined before the call returns (and no more than num_threads are started)");
   ASSERT(!oob, "callback never invoked outside [start,end)");
   ASSERT(!bad_thread && !bad_tn, "thread numbers lie in [0,num_threads)");
   for (int i = 0; i < RANGE; i++) ASSERT(visits[i] <= 1, "no value is visited twice");
